@@ -282,3 +282,34 @@ def _const_frac(node: ast.AST, atom) -> Optional[Fraction]:
     except NotPoly:
         return None
     return rf.const_value()
+
+
+def component_of(node: ast.AST):
+    """`v[:, :1]` / `v[:, 0]` / `v[:, 0:1]` / `v[..., 0]` -> (v, 0);  `v[:, 1:]` (2-vectors) / `v[:, 1]` -> (v, 1);
+    `v[:, 2:]`/`v[:, 2]` -> (v, 2).  None when `node` is not a single-column selection."""
+    if not isinstance(node, ast.Subscript):
+        return None
+    sl = node.slice
+    elts = sl.elts if isinstance(sl, ast.Tuple) else None
+    if not elts or len(elts) < 2:
+        return None
+    lead, last = elts[:-1], elts[-1]
+    for e in lead:
+        full = isinstance(e, ast.Slice) and e.lower is None and e.upper is None and e.step is None
+        if not (full or (isinstance(e, ast.Constant) and e.value is Ellipsis) or (isinstance(e, ast.Constant) and e.value is None)):
+            return None
+
+    def const(x):
+        return x.value if isinstance(x, ast.Constant) and isinstance(x.value, int) else None
+    if isinstance(last, ast.Constant) and isinstance(last.value, int):
+        return node.value, last.value
+    if isinstance(last, ast.Slice) and last.step is None:
+        lo = 0 if last.lower is None else const(last.lower)
+        hi = None if last.upper is None else const(last.upper)
+        if lo is None:
+            return None
+        if hi is not None and hi == lo + 1:
+            return node.value, lo
+        if hi is None and last.lower is not None:
+            return node.value, ("from", lo)  # open-ended: the last column of an (lo+1)-vector
+    return None
